@@ -3,7 +3,7 @@ import random
 
 from .. import gen, harness, mon, ref, runfam
 from ..core import Check, derive_seed
-from ..model import Expr, Ref, Program
+from ..model import Expr, In, Ref, Program
 
 
 def fan_in_case(rng, k, vector):
@@ -32,6 +32,57 @@ def fan_in_case(rng, k, vector):
     return {"program": prog, "scripts": gen.make_scripts(steps, outcome), "input": gen.base_input(rng), "shape": "fan_in%d/%s" % (k, vector), "outcome": outcome}
 
 
+def fault_hang_case(rng):
+    """No output can be produced any more because an expression cannot be evaluated over the produced values,
+    while an unrelated step never ends: the run must end with an error and not wait for that step."""
+    name, fn = rng.choice([("chain2", lambda r: gen.shape_chain(r, 2)), ("chain3", lambda r: gen.shape_chain(r, 3)), ("diamond", gen.shape_diamond),
+                           ("fan_in3", lambda r: gen.shape_fan_in(r, 3))])
+    steps, outs = fn(rng)
+    where = rng.choice(["output", "step-needed"])
+    what = gen.add_fault(rng, steps, outs, where, optional="" if where == "output" else None)
+    outcome = {}
+    nz = rng.choice([1, 1, 2])
+    for i in range(nz):
+        steps.append(gen.plugin_step("z%d" % i, Expr(In("tag"))))
+        outcome["z%d" % i] = "hang"
+    rng.shuffle(steps)
+    prog = Program(steps, outs, gen.BASE_INPUT)
+    return {"program": prog, "scripts": gen.make_scripts(steps, outcome), "input": gen.base_input(rng), "shape": "%s/evalfault(%s)+%d-never-ending" % (name, what, nz), "outcome": outcome}
+
+
+def late_waiter_case(rng):
+    """Every remaining output hangs on a stage of a step that can never deploy / start; that step's deployment is held back
+    until the step it depends on is completely done, so that its announcement 'waiting for input' is the last event of the
+    run. Only the stuck-workflow check can end such a run, and it must."""
+    oc = rng.choice(["error", "crash", "deployfail", "alt"])
+    blocked_at = rng.choice(["starting", "starting", "deploy", "wait_for"])
+    a = gen.plugin_step("a", Expr(In("tag")))
+    if blocked_at == "starting":
+        b = gen.plugin_step("b", gen.tagref("a"))
+    elif blocked_at == "wait_for":
+        b = gen.plugin_step("b", Expr(In("tag")), wait_for=Expr(Ref("a", "outputs", "success")))
+    else:
+        b = gen.plugin_step("b", Expr(In("tag")), deploy={"deployer_name": "scripted", "tag": gen.tagref("a")})
+    steps = [a, b]
+    for i in range(rng.choice([0, 0, 1, 3])):
+        steps.append(gen.plugin_step("c%d" % i, gen.tagref("b")))
+    stage = rng.choice(["crashed", "closed", "deploy_failed"] if blocked_at == "deploy" else ["crashed", "closed"])
+    leaf = {"crashed": Ref("b", "crashed", "error"), "closed": Ref("b", "closed", "result"), "deploy_failed": Ref("b", "deploy_failed", "error")}[stage]
+    outs = {"success": {"t": gen.tagref(steps[-1].name)}, "late": {"why": Expr(leaf)}}
+    outcome = {"a": oc}
+    scripts = gen.make_scripts(steps, outcome)
+    trig = []
+    if blocked_at != "deploy" and rng.random() < 0.8:
+        scripts["b"].setdefault("deploys", [{}, {}])
+        scripts["b"]["deploys"] = [{}, {"gate": "gb"}]
+        ev = ("deploy-fail", "a", 1) if oc == "deployfail" else rng.choice([("conn-close", "a", 2), ("exec-end", "a", 1)])
+        trig = [{"kind": ev[0], "src": ev[1], "nth": ev[2], "action": "open:gb"}]
+    rng.shuffle(steps)
+    prog = Program(steps, outs, gen.BASE_INPUT)
+    return {"program": prog, "scripts": scripts, "input": gen.base_input(rng), "shape": "late-waiter/%s@%s/%s/%s" % (blocked_at, stage, oc, "gated" if trig else "free"),
+            "outcome": outcome, "triggers": trig}
+
+
 def run(check):
     n = check.pick(400, 6000)
     check.rule = ("generated workflow programs (all shapes of vlib.gen incl. fan-in up to 45 producers) x outcome vectors "
@@ -45,7 +96,13 @@ def run(check):
         rng = random.Random(derive_seed(check.seed, "c01", i))
         r = rng.random()
         opts = {}
-        if r < 0.25:
+        if r < 0.08:
+            g = fault_hang_case(rng)
+        elif r < 0.16:
+            g = late_waiter_case(rng)
+            if g["triggers"]:
+                opts["triggers"] = g["triggers"]
+        elif r < 0.30:
             k = rng.choice([2, 7, 19, 20, 21, 22, 25, 33, 45])
             g = fan_in_case(rng, k, rng.choice(["all-fail", "all-error", "first-fail", "last-fail", "mixed", "one-hangs-rest-fail"]))
         else:
